@@ -13,6 +13,7 @@ import (
 	"reflect"
 	"time"
 
+	"vspec/ngap38413"
 	"vspec/vc"
 )
 
@@ -121,5 +122,116 @@ func vcBounded_ngapDecoderTotal() {
 				try(m.name+" octet", c)
 			}
 		}
+	}
+}
+
+// vcExpect describes what TS 38.413 9.2 prescribes for a message (see /verif/spec/ngap38413/messages.go).
+type vcExpect struct {
+	class, proc, crit int
+	ies               []int // id, criticality pairs
+}
+
+func vcCheckWalk(name string, b []byte, e vcExpect, amf, ran int64, nas []byte) {
+	p, err := ngap38413.Walk(b)
+	if err != nil {
+		panic(vc.Failure{Kind: "bounded", Label: fmt.Sprintf("%s: reference walker rejects % x: %v", name, b, err)})
+	}
+	if p.Class != e.class || p.Procedure != e.proc || p.Criticality != e.crit {
+		panic(vc.Failure{Kind: "bounded", Label: fmt.Sprintf("%s: class/procedure/criticality %d/%d/%d, TS 38.413 says %d/%d/%d", name, p.Class, p.Procedure, p.Criticality, e.class, e.proc, e.crit)})
+	}
+	if len(p.IEs)*2 != len(e.ies) {
+		panic(vc.Failure{Kind: "bounded", Label: fmt.Sprintf("%s: %d IEs, expected %d", name, len(p.IEs), len(e.ies)/2)})
+	}
+	for i, ie := range p.IEs {
+		if ie.ID != e.ies[2*i] || ie.Criticality != e.ies[2*i+1] {
+			panic(vc.Failure{Kind: "bounded", Label: fmt.Sprintf("%s: IE %d is id %d criticality %d, expected id %d criticality %d", name, i, ie.ID, ie.Criticality, e.ies[2*i], e.ies[2*i+1])})
+		}
+		switch ie.ID {
+		case ngap38413.IEAMFUENGAPID:
+			if v, err := ngap38413.DecodeLargeInteger(ie.Value, 5); err != nil || v != amf {
+				panic(vc.Failure{Kind: "bounded", Label: fmt.Sprintf("%s: AMF-UE-NGAP-ID on the wire is %d (%v), the caller gave %d", name, v, err, amf)})
+			}
+		case ngap38413.IERANUENGAPID:
+			if v, err := ngap38413.DecodeLargeInteger(ie.Value, 4); err != nil || v != ran {
+				panic(vc.Failure{Kind: "bounded", Label: fmt.Sprintf("%s: RAN-UE-NGAP-ID on the wire is %d (%v), the caller gave %d", name, v, err, ran)})
+			}
+		case ngap38413.IENASPDU:
+			// OCTET STRING without size constraint: length determinant, octets
+			n, off := int(ie.Value[0]), 1
+			if ie.Value[0]&0x80 != 0 {
+				n, off = int(ie.Value[0]&0x3f)<<8|int(ie.Value[1]), 2
+			}
+			if n != len(nas) || !bytes.Equal(ie.Value[off:], nas) {
+				panic(vc.Failure{Kind: "bounded", Label: fmt.Sprintf("%s: NAS-PDU on the wire differs from the caller's", name)})
+			}
+		}
+	}
+}
+
+// prop: C13
+// bound: the 8 message constructors x AMF-UE-NGAP-ID in {0,1,255,256,65535,65536,2^32,2^40-1} x RAN-UE-NGAP-ID in {0,1,2^32-1} x NAS-PDU lengths {1,100,127,128,300,2000}: an independent walker (TS 38.413 / X.691) finds class, procedure code, criticality, the IE ids and criticalities of clause 9.2 and the caller's identifiers and NAS-PDU; identifiers just outside their range (-1, 2^40, 2^32) are refused with an error
+func vcBounded_wrappersOnTheWire() {
+	R, I := ngap38413.Reject, ngap38413.Ignore
+	nasLens := []int{1, 100, 127, 128, 300, 2000}
+	for _, amf := range []int64{0, 1, 255, 256, 65535, 65536, 1 << 32, 1<<40 - 1} {
+		for _, ran := range []int64{0, 1, 4294967295} {
+			for _, n := range nasLens {
+				nas := bytes.Repeat([]byte{0xA7}, n)
+				b, err := GetUplinkNASTransport(amf, ran, nas)
+				if err != nil {
+					panic(vc.Failure{Kind: "bounded", Label: fmt.Sprintf("UplinkNASTransport(%d,%d) refused: %v", amf, ran, err)})
+				}
+				vcCheckWalk("UplinkNASTransport", b, vcExpect{0, ngap38413.ProcUplinkNASTransport, I, []int{ngap38413.IEAMFUENGAPID, R, ngap38413.IERANUENGAPID, R, ngap38413.IENASPDU, R, ngap38413.IEUserLocationInformation, I}}, amf, ran, nas)
+			}
+			b, err := GetInitialContextSetupResponse(amf, ran)
+			if err != nil {
+				panic(vc.Failure{Kind: "bounded", Label: fmt.Sprintf("InitialContextSetupResponse refused: %v", err)})
+			}
+			vcCheckWalk("InitialContextSetupResponse", b, vcExpect{1, ngap38413.ProcInitialContextSetup, R, []int{ngap38413.IEAMFUENGAPID, I, ngap38413.IERANUENGAPID, I}}, amf, ran, nil)
+			b, err = GetPDUSessionResourceSetupResponse(amf, ran, 5, "10.200.200.1")
+			if err != nil {
+				panic(vc.Failure{Kind: "bounded", Label: fmt.Sprintf("PDUSessionResourceSetupResponse refused: %v", err)})
+			}
+			vcCheckWalk("PDUSessionResourceSetupResponse", b, vcExpect{1, ngap38413.ProcPDUSessionResourceSetup, R, []int{ngap38413.IEAMFUENGAPID, I, ngap38413.IERANUENGAPID, I, ngap38413.IEPDUSessionResourceSetupListSURes, I}}, amf, ran, nil)
+			b, err = GetPDUSessionResourceReleaseResponse(amf, ran, 5)
+			if err != nil {
+				panic(vc.Failure{Kind: "bounded", Label: fmt.Sprintf("PDUSessionResourceReleaseResponse refused: %v", err)})
+			}
+			vcCheckWalk("PDUSessionResourceReleaseResponse", b, vcExpect{1, ngap38413.ProcPDUSessionResourceRelease, R, []int{ngap38413.IEAMFUENGAPID, I, ngap38413.IERANUENGAPID, I, ngap38413.IEPDUSessionResourceReleasedListRelRes, I}}, amf, ran, nil)
+			b, err = GetUEContextReleaseComplete(amf, ran, nil)
+			if err != nil {
+				panic(vc.Failure{Kind: "bounded", Label: fmt.Sprintf("UEContextReleaseComplete refused: %v", err)})
+			}
+			vcCheckWalk("UEContextReleaseComplete", b, vcExpect{1, ngap38413.ProcUEContextRelease, R, []int{ngap38413.IEAMFUENGAPID, I, ngap38413.IERANUENGAPID, I, ngap38413.IEUserLocationInformation, I}}, amf, ran, nil)
+			b, err = GetInitialContextSetupResponseForServiceRequest(amf, ran, 5, "10.200.200.1")
+			if err != nil {
+				panic(vc.Failure{Kind: "bounded", Label: fmt.Sprintf("InitialContextSetupResponseForServiceRequest refused: %v", err)})
+			}
+			vcCheckWalk("InitialContextSetupResponseForServiceRequest", b, vcExpect{1, ngap38413.ProcInitialContextSetup, R, []int{ngap38413.IEAMFUENGAPID, I, ngap38413.IERANUENGAPID, I, ngap38413.IEPDUSessionResourceSetupListCxtRes, I}}, amf, ran, nil)
+		}
+	}
+	for _, ran := range []int64{0, 7, 4294967295} {
+		for _, n := range nasLens {
+			nas := bytes.Repeat([]byte{0x3C}, n)
+			b, err := GetInitialUEMessage(ran, nas, "")
+			if err != nil {
+				panic(vc.Failure{Kind: "bounded", Label: fmt.Sprintf("InitialUEMessage refused: %v", err)})
+			}
+			vcCheckWalk("InitialUEMessage", b, vcExpect{0, ngap38413.ProcInitialUEMessage, I, []int{ngap38413.IERANUENGAPID, R, ngap38413.IENASPDU, R, ngap38413.IEUserLocationInformation, R, ngap38413.IERRCEstablishmentCause, I, ngap38413.IEUEContextRequest, I}}, 0, ran, nas)
+		}
+	}
+	b, err := GetNGSetupRequest([]byte{0, 1, 2}, []byte{0x02, 0xf8, 0x39}, 24, "open5gs")
+	if err != nil {
+		panic(vc.Failure{Kind: "bounded", Label: fmt.Sprintf("NGSetupRequest refused: %v", err)})
+	}
+	vcCheckWalk("NGSetupRequest", b, vcExpect{0, ngap38413.ProcNGSetup, R, []int{ngap38413.IEGlobalRANNodeID, R, ngap38413.IERANNodeName, I, ngap38413.IESupportedTAList, R, ngap38413.IEDefaultPagingDRX, I}}, 0, 0, nil)
+	// out-of-range identifiers are refused, not truncated
+	for _, bad := range [][2]int64{{-1, 1}, {1 << 40, 1}, {1, -1}, {1, 1 << 32}} {
+		if _, err := GetUplinkNASTransport(bad[0], bad[1], []byte{1}); err == nil {
+			panic(vc.Failure{Kind: "bounded", Label: fmt.Sprintf("UplinkNASTransport(%d,%d): out-of-range identifier was put on the wire", bad[0], bad[1])})
+		}
+	}
+	if _, err := GetPDUSessionResourceSetupResponse(1, 1, 256, "10.0.0.1"); err == nil {
+		panic(vc.Failure{Kind: "bounded", Label: "PDU session id 256 was put on the wire"})
 	}
 }
